@@ -27,10 +27,13 @@ pub fn shape_text(shape: &str, n: usize) -> String {
         "alt" => (0..n).map(|i| if i % 2 == 0 { "- " } else { "? " }).collect::<String>() + "a\n",
         "mixflow" => (0..n).map(|i| if i % 2 == 0 { "[" } else { "{a: " }).collect::<String>() + "x" + &(0..n).rev().map(|i| if i % 2 == 0 { "]" } else { "}" }).collect::<String>(),
         "seqmap" => "- k: ".repeat(n) + "a\n",
+        // a block scalar as the innermost node (its indentation grows with the depth), with and without a final line break
+        "seqblock" => "- ".repeat(n) + "|\n" + &" ".repeat(2 * n) + "a\n" + &" ".repeat(2 * n) + "b\n",
+        "seqblock-nonl" => "- ".repeat(n) + ">\n" + &" ".repeat(2 * n) + "a\n" + &" ".repeat(2 * n) + "b",
         _ => String::new(),
     }
 }
-pub const SHAPES: &[&str] = &["seq", "map", "qkey", "flowseq", "flowmap", "alt", "mixflow", "seqmap"];
+pub const SHAPES: &[&str] = &["seq", "map", "qkey", "flowseq", "flowmap", "alt", "mixflow", "seqmap", "seqblock", "seqblock-nonl"];
 pub const APIS: &[&str] = &["iter", "load", "loadstr-drop", "clone-eq-hash", "emit"];
 
 /// Run one scenario in this process; prints one JSON line when it survives.
@@ -109,14 +112,25 @@ pub fn run(a: &Args) {
     let mut died = 0;
     let mut samples = vec![];
     // (the text of the 'k:' per level shape grows with the square of the depth: 450 MB at 30 000 levels)
-    let jobs: Vec<(String, usize, String)> = SHAPES.iter().flat_map(|s| depths.iter().flat_map(move |d| APIS.iter().map(move |api| (s.to_string(), *d, api.to_string())))).filter(|j| !(j.0 == "map" && j.1 > 30000)).collect();
+    let mut jobs: Vec<(String, usize, String)> = SHAPES.iter().flat_map(|s| depths.iter().flat_map(move |d| APIS.iter().map(move |api| (s.to_string(), *d, api.to_string())))).filter(|j| !(j.0 == "map" && j.1 > 30000) && !(j.0.starts_with("seqblock") && j.1 > 3000)).collect();
+    // the block-scalar leaf at every small depth (its indentation passes every buffer size)
+    for s in ["seqblock", "seqblock-nonl"] {
+        for d in 2..=80usize {
+            if !depths.contains(&d) {
+                for api in APIS {
+                    jobs.push((s.to_string(), d, api.to_string()));
+                }
+            }
+        }
+    }
     let results: Vec<Value> = std::thread::scope(|sc| {
         let chunks: Vec<_> = jobs.chunks((jobs.len() + 7) / 8).collect();
         let hs: Vec<_> = chunks.into_iter().map(|ch| {
             let exe = exe.clone();
             sc.spawn(move || {
                 ch.iter().map(|(s, d, api)| {
-                    let o = std::process::Command::new(&exe).args(["c11-child", "--shape", s, "--depth", &d.to_string(), "--api", api]).output();
+                    // (a scenario that neither succeeds nor fails within two minutes is ended: exit status 124)
+                    let o = std::process::Command::new("timeout").arg("120").arg(&exe).args(["c11-child", "--shape", s, "--depth", &d.to_string(), "--api", api]).output();
                     match o {
                         Ok(o) => {
                             use std::os::unix::process::ExitStatusExt;
